@@ -1142,6 +1142,14 @@ impl World {
             self.obs.borrow_mut().push(ObsSlot { handles: vec![o], node: n, st: OSt::Dead, last: None, subs: vec![], created_round: round, pinned: false, smuggled: None, state_unsub_after_gone: false, over: false });
         }
         let _ = log_start;
+        // the caller may go on writing variables after it caught the panic (whether the write is
+        // accepted or refused is not the point): the teardown that follows must still be clean
+        if !self.vars.is_empty() && choose(2) == 1 {
+            let (i, v) = self.vars.iter().next().map(|(i, e)| (*i, e.0.clone())).unwrap();
+            op_log(format!("Write({i}) after the panic"));
+            let _ = catch(move || v.set(fresh()));
+            cover("var-written-after-the-panic");
+        }
     }
 
     /// did `src` (or, through transparent nodes, one of its inputs) produce an unsuppressed
